@@ -16,6 +16,10 @@ theorem C08_unresolved_ranges_reviewed : mapRangeUnresolved = reviewedNonMap := 
 
 theorem C08_no_ambient_nondeterminism : ambientUses = [] := by rfl
 
+/-- no function that ranges over a map singles out the first / last element of a slice loop (the way a
+map-derived order becomes observable after a tie-tolerant sort) -/
+theorem C08_no_position_dependent_use : positionDependentUses = [] := by rfl
+
 /-- No message handler (anything outside the EndBlocker and the (re)initialisation in single.go, which
 never run on the check state) writes the oracle's process-global cache / aggregator without an
 `IsCheckTx` guard. This is the source-level fact `C08_checktx_does_not_touch_deliver_state` models;
